@@ -614,6 +614,20 @@ func outcomeSig(pre *state, o *outcome, startID int) string {
 				continue
 			}
 		}
+		// … likewise what a callee-local array (or a front part of one) holds
+		for _, pfx := range []string{"alloc#", "slice(alloc#", "front:alloc#"} {
+			if strings.HasPrefix(k, pfx) {
+				var id int
+				fmt.Sscanf(k[len(pfx):], "%d", &id)
+				if id > startID && !escaping[id] {
+					k = ""
+				}
+				break
+			}
+		}
+		if k == "" {
+			continue
+		}
 		// a field pre-filled by bytes.Repeat and overwritten in part: a fresh slice of the callee, invisible unless returned
 		if sc := stripCT(c); sc != nil && sc.Op == "overlay" && strings.HasPrefix(k, "call") {
 			returned := false
